@@ -65,7 +65,7 @@ func budgetFor(p *PropDef, tier string) time.Duration {
 		if p.ThoroughBudget > 0 {
 			return p.ThoroughBudget
 		}
-		return 15 * time.Minute
+		return 10 * time.Minute
 	}
 	if p.QuickBudget > 0 {
 		return p.QuickBudget
